@@ -3,6 +3,7 @@
 package main
 
 import (
+	"crypto/tls"
 	"net/http"
 	"net/url"
 	"sort"
@@ -58,6 +59,7 @@ func (o outT) sx() SX {
 func serveOnce(m *cors.Middleware, q reqT, pre http.Header) (o outT) {
 	w := &rw{h: cloneHdr(pre), status: -1}
 	req := &http.Request{Method: q.method, Header: cloneHdr(q.hdrs), URL: &url.URL{Path: "/"}, Proto: "HTTP/1.1"}
+	dressRequest(req)
 	var snap http.Header
 	o.sameArgs = true
 	h := m.Wrap(http.HandlerFunc(func(w2 http.ResponseWriter, r2 *http.Request) {
@@ -86,6 +88,58 @@ func serveOnce(m *cors.Middleware, q reqT, pre http.Header) (o outT) {
 		o.hdrs = cloneHdr(w.h)
 	}
 	return o
+}
+
+// dressRequest varies, deterministically from a running counter, every part of the request that the property texts
+// never mention and the model ignores: request target (`*`, absolute form, path and query), Host, protocol version,
+// length, remote address, TLS state, Close. CORS handling is a function of the method and four header fields only, so
+// any dependence on these shows up as a disagreement with the model.
+var dressCount int
+
+func dressRequest(req *http.Request) {
+	dressCount++
+	k := dressCount
+	switch k % 7 {
+	case 1:
+		req.RequestURI = "*"
+		req.URL = &url.URL{Path: "*"}
+	case 2:
+		req.RequestURI = "/a/b?c=d"
+		req.URL = &url.URL{Path: "/a/b", RawQuery: "c=d"}
+	case 3:
+		req.RequestURI = "http://example.com/x"
+		req.URL = &url.URL{Scheme: "http", Host: "example.com", Path: "/x"}
+	case 4:
+		req.RequestURI = "/"
+	}
+	switch k % 5 {
+	case 1:
+		req.Host = "example.com"
+	case 2:
+		req.Host = "attacker.example:8080"
+	case 3:
+		req.Host = "localhost"
+	}
+	switch k % 4 {
+	case 1:
+		req.Proto, req.ProtoMajor, req.ProtoMinor = "HTTP/2.0", 2, 0
+	case 2:
+		req.Proto, req.ProtoMajor, req.ProtoMinor = "HTTP/1.0", 1, 0
+	case 3:
+		req.Proto, req.ProtoMajor, req.ProtoMinor = "HTTP/1.1", 1, 1
+	}
+	switch k % 3 {
+	case 1:
+		req.ContentLength = 17
+		req.RemoteAddr = "127.0.0.1:4711"
+	case 2:
+		req.ContentLength = -1
+		req.RemoteAddr = "[2001:db8::1]:443"
+		req.Close = true
+	}
+	if k%6 == 5 {
+		req.TLS = &tls.ConnectionState{}
+	}
 }
 
 // ---------- request suites derived from a configuration ----------
